@@ -170,8 +170,8 @@ var compileCache = map[string]*compiled{}
 
 type schemaTypes struct {
 	objects map[string]*graphql.ObjectType
-	named   map[string]graphql.Type      // the type a field holding the object is declared with
-	extra   []graphql.NamedType          // types only reachable through an interface
+	named   map[string]graphql.Type // the type a field holding the object is declared with
+	extra   []graphql.NamedType     // types only reachable through an interface
 }
 
 func gqlType(t *TShape, nn bool, types *schemaTypes) graphql.Type {
